@@ -83,7 +83,7 @@ func TestDerivedVariableWriterRace(t *testing.T) {
 				}(i)
 			}
 			close(start)
-			if !ctl.Within(ctl.HangTimeout, wg.Wait) {
+			if !ctl.WithinHang(wg.Wait) {
 				stats.Violation(check, map[string]any{"config": desc, "round": round, "problem": "writers did not return", "stacks": ctl.Dump()})
 				rt.Fatalf("%s: writers did not return within %v", desc, ctl.HangTimeout)
 			}
